@@ -1,0 +1,66 @@
+//go:build verif
+// +build verif
+
+package app
+
+import (
+	"github.com/Oneledger/protocol/config"
+	"github.com/Oneledger/protocol/data/bitcoin"
+	"github.com/Oneledger/protocol/data/chain"
+	"github.com/Oneledger/protocol/storage"
+	"github.com/tendermint/tendermint/store"
+)
+
+// VerifPrepare does what Prepare() does minus creating and starting a Tendermint node.
+// Only compiled with -tags verif (verification harness); never part of a normal build.
+func (app *App) VerifPrepare(gen *config.GenesisDoc, bs *store.BlockStore) error {
+	if !app.Context.govern.InitialChain() {
+		currencies, err := app.Context.govern.WithHeight(app.header.Height).GetCurrencies()
+		if err != nil {
+			return err
+		}
+		for _, currency := range currencies {
+			if err := app.Context.currencies.Register(currency); err != nil {
+				return err
+			}
+		}
+		feeOpt, err := app.Context.govern.WithHeight(app.header.Height).GetFeeOption()
+		if err != nil {
+			return err
+		}
+		app.Context.feePool.SetupOpt(feeOpt)
+		cdOpt, err := app.Context.govern.WithHeight(app.header.Height).GetETHChainDriverOption()
+		if err != nil {
+			return err
+		}
+		app.Context.ethTrackers.SetupOption(cdOpt)
+		btcOption, err := app.Context.govern.WithHeight(app.header.Height).GetBTCChainDriverOption()
+		if err != nil {
+			return err
+		}
+		app.Context.btcTrackers.SetConfig(bitcoin.NewBTCConfig(app.Context.cfg.ChainDriver, btcOption.ChainType))
+		propOpt, err := app.Context.govern.WithHeight(app.header.Height).GetProposalOptions()
+		if err != nil {
+			return err
+		}
+		app.Context.proposalMaster.Proposal.SetOptions(propOpt)
+		rewardsOpt, err := app.Context.govern.GetRewardOptions()
+		if err != nil {
+			return err
+		}
+		app.Context.rewardMaster.SetOptions(rewardsOpt)
+	}
+	app.genesisDoc = gen
+	app.Context.witnesses.Init(chain.ETHEREUM, app.Context.node.ValidatorAddress())
+	app.Context.SetBlockStore(bs)
+	return nil
+}
+
+// VerifDeliver exposes the deliver state (read-only use by the harness).
+func (app *App) VerifDeliver() *storage.State { return app.Context.deliver }
+
+// VerifCheck exposes the check state (read-only use by the harness).
+func (app *App) VerifCheck() *storage.State { return app.Context.check }
+
+// VerifChainState exposes the committed chain state (read-only use by the harness).
+func (app *App) VerifChainState() *storage.ChainState { return app.Context.chainstate }
